@@ -154,6 +154,32 @@ example :
     ∃ ss, call (fun _ => false) .guestImport true false (Func.mk false [.u32] (some (.tuple [.string, .u8]))) = .ok ss :=
   ⟨by decide, ⟨_, rfl⟩⟩
 
+/-- **Async export glue reports its result through exactly one `task.return`** (callback ABI;
+memory-free parameters with at most 16 flat values, memory-free result with at most 16 flat values —
+the async flat-result limit).  Whatever well-formed core values arrive: the user function is called
+exactly once with the values the canonical ABI assigns to them (stuck iff the spec traps, before
+anything is called), then **exactly one** `task.return` is performed whose operands are the canonical
+flat lowering of the result; nothing is freed and nothing else is called. -/
+theorem async_export_glue_task_return_once (p : Nat) (hp : p = 4 ∨ p = 8) (canon : Ty → Bool) (f : Func)
+    (hnm : f.isMethod = false) (incoming : List CVal) (rv : Option Val)
+    (hm : memFreeAll f.params = true) (hflat : (flattenList f.params).length ≤ 16)
+    (hwf : WfFlat incoming (Spec.flattenList p f.params))
+    (hmr : memFreeOpt f.result = true) (hrflat : (flattenOpt f.result).length ≤ 16)
+    (hrv : Spec.hasTyOpt f.result rv = true)
+    (ss : List Stmt) (h : call canon .guestExportAsync false true f = .ok ss) :
+    (execStmts { p, args := incoming.map MV.c, ifaceResult := rv.toList.map MV.v } {} ss).map
+        (fun r => (r.2.calls, r.2.freed)) =
+      (specLiftAll p [] f.params incoming).map fun vals =>
+        ([("AsyncTaskReturn", (Spec.lowerOpt p f.result rv {}).1.map MV.c), ("CallInterface", vals.map MV.v)], []) :=
+  call_export_async_flat_correct p hp canon f hnm incoming rv hm hflat hwf hmr hrflat hrv ss h
+
+/-- Non-vacuity of `async_export_glue_task_return_once`: `f(a: u8) -> tuple<u32, f64, u8>` (three flat
+result values: direct on task.return, a return area for the sync ABI). -/
+example :
+    (flattenOpt (some (Ty.tuple [.u32, .f64, .u8]))).length ≤ 16 ∧
+    ∃ ss, call (fun _ => false) .guestExportAsync false true (Func.mk false [.u8] (some (.tuple [.u32, .f64, .u8]))) = .ok ss :=
+  ⟨by decide, ⟨_, rfl⟩⟩
+
 /-- Non-vacuity of `export_glue_indirect_params_correct`: `f(a: string, b0..b15: u64, c: u8) -> u32`
 has 18 flat parameters; its record is 144 bytes on wasm32 (trailing padding after the `u8`). -/
 example :
